@@ -3,6 +3,7 @@ package cached
 import (
 	"errors"
 	"fmt"
+	"math/rand"
 	"os"
 	"sort"
 	"strings"
@@ -133,3 +134,137 @@ func StageScenario(no int, variant string, tw *trace.Writer, opts Opts, root str
 type sobj struct{ id int }
 
 func (o *sobj) SizeInMemory() int64 { return 2 }
+
+// StageStress: free-running rounds in which every transaction runs its accesses
+// (distinct names) on parallel goroutines, as the write pipeline does; writers
+// one at a time until their accesses are over (bbolt), commits may overlap the
+// next writer. Everything must return, the monitor judges isolation, a fresh
+// transaction must make progress afterwards.
+func StageStress(no int, seed int64, tw *trace.Writer, opts Opts, root string) (stuck bool) {
+	rng := newRand(seed)
+	mgr := cache.NewManager(opts.MaxSize)
+	sched := gate.New()
+	var mu sync.Mutex
+	next := 0
+	names := []string{"A", "B", "C"}
+	type acc struct {
+		name           string
+		ro, cbf, ctorf bool
+	}
+	progs := map[string][]acc{}
+	plog := M{}
+	for _, t := range []string{"t1", "t2", "t3"} {
+		perm := rng.Perm(len(names))
+		k := 1 + rng.Intn(3)
+		var p []acc
+		var pl []M
+		writer := t != "t2" && rng.Intn(4) != 0
+		for i := 0; i < k; i++ {
+			a := acc{name: names[perm[i]], ro: !writer || rng.Intn(3) == 0}
+			a.cbf = rng.Intn(8) == 0
+			a.ctorf = rng.Intn(12) == 0
+			p = append(p, a)
+			pl = append(pl, M{"name": a.name, "ro": a.ro, "cbFail": a.cbf, "ctorFail": a.ctorf})
+		}
+		progs[t] = p
+		plog[t] = pl
+	}
+	tw.Emit("NewBehaviour", M{"b": no, "progs": plog, "maxsize": opts.MaxSize, "steps": 0, "stress": 1})
+	var dbw sync.Mutex
+	actors := []string{"t1", "t2", "t3"}
+	for _, t := range actors {
+		t, prog := t, progs[t]
+		delay := time.Duration(rng.Intn(300)) * time.Microsecond
+		cfail := rng.Intn(6) == 0
+		sleeps := make([]time.Duration, len(prog))
+		for i := range sleeps {
+			sleeps[i] = time.Duration(rng.Intn(400)) * time.Microsecond
+		}
+		sched.Go(t, func() {
+			time.Sleep(delay)
+			tx := mgr.NewTransaction()
+			isWriter := false
+			for _, a := range prog {
+				if !a.ro {
+					isWriter = true
+				}
+			}
+			if isWriter {
+				dbw.Lock()
+			}
+			var wg sync.WaitGroup
+			var failed sync.Map
+			for i, a := range prog {
+				wg.Add(1)
+				go func(i int, a acc) {
+					defer wg.Done()
+					g := fmt.Sprintf("%s.%d", t, i+1)
+					tw.Emit("WithStart", M{"t": t, "g": g, "i": i + 1, "name": a.name, "ro": b2i(a.ro)})
+					err := tx.With(a.name, a.ro, func() (cache.Cachable, error) {
+						if a.ctorf {
+							return nil, errors.New("constructor failed")
+						}
+						mu.Lock()
+						next++
+						o := &sobj{id: next}
+						mu.Unlock()
+						tw.Emit("Created", M{"t": t, "obj": o.id})
+						return o, nil
+					}, func(c cache.Cachable) error {
+						o := c.(*sobj)
+						tw.Emit("CbEnter", M{"t": t, "g": g, "name": a.name, "ro": b2i(a.ro), "obj": o.id})
+						time.Sleep(sleeps[i])
+						tw.Emit("CbExit", M{"t": t, "g": g, "obj": o.id, "err": b2i(a.cbf)})
+						if a.cbf {
+							return errors.New("callback failed")
+						}
+						return nil
+					})
+					if err != nil {
+						failed.Store(i, true)
+					}
+					tw.Emit("WithReturn", M{"t": t, "err": b2i(err != nil)})
+				}(i, a)
+			}
+			wg.Wait()
+			if isWriter {
+				dbw.Unlock()
+			}
+			anyFailed := false
+			failed.Range(func(k, v any) bool { anyFailed = true; return false })
+			tw.Emit("Commit", M{"t": t, "failed": b2i(anyFailed || cfail)})
+			tx.Commit(anyFailed || cfail)
+		})
+	}
+	pending := sched.AllDone(actors, 3*opts.StepTimeout+time.Second)
+	if len(pending) > 0 {
+		dump := gate.Dump()
+		tw.Emit("Stuck", M{"who": pending, "confirmed": b2i(strings.Contains(dump, "sync.(*Mutex).Lock") || strings.Contains(dump, "sync.(*RWMutex)")), "scenario": "stress"})
+		os.WriteFile(fmt.Sprintf("%s/stuck-stress-%d.dump", root, no), []byte(dump), 0644)
+		return true
+	}
+	done := make(chan error, 1)
+	go func() {
+		tp := mgr.NewTransaction()
+		var errs []error
+		for _, n := range names {
+			errs = append(errs, tp.With(n, false, func() (cache.Cachable, error) { return &sobj{}, nil }, func(c cache.Cachable) error { return nil }))
+		}
+		tp.Commit(false)
+		tq := mgr.NewTransaction()
+		for _, n := range names {
+			errs = append(errs, tq.With(n, true, func() (cache.Cachable, error) { return &sobj{}, nil }, func(c cache.Cachable) error { return nil }))
+		}
+		tq.Commit(false)
+		done <- errors.Join(errs...)
+	}()
+	select {
+	case err := <-done:
+		tw.Emit("Probe", M{"ok": b2i(err == nil)})
+	case <-time.After(2 * opts.StepTimeout):
+		tw.Emit("Probe", M{"ok": 0})
+	}
+	return false
+}
+
+func newRand(seed int64) *rand.Rand { return rand.New(rand.NewSource(seed)) }
